@@ -115,6 +115,8 @@ def _builtin_corpus():
     stmts = [
         ("with", dict(sel, **{"with": [["w", q1]]})),
         ("cross-join", dict(sel, joins=[["cross", ["table", ["d", [], None]]]])),
+        ("cross-join-on-A", dict(sel, **{"from": [["table", list(C)]], "selects": [fc], "joins": [["cross", ["table", list(A)]]]})),
+        ("cross-join-subquery", dict(sel, **{"from": [["table", list(C)]], "selects": [fc], "joins": [["cross", ["sub", q1, "cj"]]]})),
         ("from-subquery", dict(sel, **{"from": [["sub", q1, "sq"]], "joins": [], "selects": [fc]})),
         ("join-subquery", dict(sel, **{"from": [["table", list(C)]], "selects": [fc],
                                        "joins": [["on", "", ["sub", q1, "j0"], ["basic", "eq", fc, fc, None]]]})),
